@@ -148,11 +148,11 @@ AF_LIMITS = [
     "1,2,2147483648", "1,{2,-2147483649}", " +-2147483650 ", "9223372036854775807", "18446744073709551616",
     "2147483647:3:1", "{2147483647:3:1}", "-2147483647:3:-1", "{-2147483647:4:-1}", "5:4:2147483647",
     "{5:4:2147483647}", "{2147483647:2:2147483647}:3:2147483647", "{0:3:-2147483647}:2:-2147483647",
-    "0:1048575:0x", "0:1048576", "{0:1048576}", "{0:1048576:0}", "0:1048577:0", "0:2147483647", "{0:2147483647}",
-    "0:999999", "0:1048576,1", "{1,0:1048576}", "{1}:1048576", "{1}:01048576:0",
+    "0:1048576", "{0:1048576}", "{0:1048576:0}", "0:1048577:0", "0:2147483647", "{0:2147483647}",
+    "0:1048576,1", "{1,0:1048576}", "{1}:1048576", "{1}:01048576:0",
 ]
-AF_BIG = ["{5:1048575:0}", "{5:1048574:0}", " { 1 , 5 : +1048575 : -0 } "]
-AF_BIG_THOROUGH = ["7:1048575:0", "0:1048575", "{0:1048575}", "{3,0:1048575:-1}:2:5", "{1}:1048575:0,2"]
+AF_BIG = ["{5:1048575:0}", "{5:1048574:0}", " { 1 , 5 : +1048575 : -0 } ", "{7:1048575:0x"]
+AF_BIG_THOROUGH = ["0:999999", "0:1048575:0x", "7:1048575:0", "0:1048575", "{0:1048575}", "{3,0:1048575:-1}:2:5", "{1}:1048575:0,2"]
 
 
 def _af_int(rng, kind):
@@ -234,6 +234,8 @@ def af_size_bound(s):
 
 
 def gen_af(rng, tier):
+    """returns (forking, plain, stats): the harness parses strings with a run of >= 10 digits in a child
+    process, which is cheap only while the harness process is still small, so those cases go first"""
     cases = ["AF null", "AF 49 0 50", "AF 49 44 0 123"]
     maxlen = 5 if tier == "quick" else 6
     n_exh = 0
@@ -242,8 +244,9 @@ def gen_af(rng, tier):
             cases.append("AF " + " ".join(str(ord(ch)) for ch in t))
             n_exh += 1
     cur = AF_SELFTEST + AF_LIMITS
+    first = []
     for s0 in cur:
-        cases.append("AF " + _s2codes(s0))
+        first.append("AF " + _s2codes(s0))
     nrand = 4000 if tier == "quick" else 120000
     n_valid = n_mut = n_drop = 0
     for _ in range(nrand):
@@ -253,12 +256,12 @@ def gen_af(rng, tier):
             n_mut += 1
         else:
             n_valid += 1
-        if af_size_bound(s0) > 200000:
+        if af_size_bound(s0) > 20000:
             n_drop += 1
             continue
-        cases.append("AF " + _s2codes(s0))
-    return cases, {"af_exhaustive_len<=%d_alphabet9" % maxlen: n_exh, "af_curated": len(cur), "af_random_valid": n_valid,
-                   "af_random_mutated": n_mut, "af_dropped_too_large": n_drop}
+        first.append("AF " + _s2codes(s0))
+    return first, cases, {"af_exhaustive_len<=%d_alphabet9" % maxlen: n_exh, "af_curated": len(cur), "af_random_valid": n_valid,
+                          "af_random_mutated": n_mut, "af_dropped_too_large": n_drop}
 
 
 def _codes2s(case):
@@ -334,7 +337,7 @@ def gen_env(rng, tier):
         for v in sorted(vs):
             forms = [str(v), "-" + str(v), "+" + str(v), "000" + str(v), str(v) + "x", " " + str(v) + " "]
             if tier == "quick":
-                forms = forms[:1] + rng.sample(forms[1:], 2)
+                forms = forms[:1] + rng.sample(forms[1:], 1)
             for f in forms:
                 prefix = "ABT_" if rng.random() < 0.8 else "ABT_ENV_"
                 cases.append(head + " " + _envtok(prefix + name, f))
@@ -355,7 +358,7 @@ def gen_env(rng, tier):
         cases.append(head + " " + _envtok("ABT_ENV_" + name, "8") + " " + _envtok("ABT_" + name, "32"))
         cases.append(head + " " + _envtok("ABT_" + name, "junk") + " " + _envtok("ABT_ENV_" + name, "32"))
     # combinations
-    ncomb = 500 if tier == "quick" else 8000
+    ncomb = 300 if tier == "quick" else 8000
     names = list(ENV_NUM)
     for _ in range(ncomb):
         toks = []
@@ -379,7 +382,7 @@ def gen_env(rng, tier):
 def gen(rng, tier):
     c1, s1 = gen_ht(rng, tier)
     c2, s2 = gen_at(rng, tier)
-    c3, s3 = gen_af(rng, tier)
+    c3a, c3b, s3 = gen_af(rng, tier)
     c4, s4 = gen_env(rng, tier)
     s1.update(s2)
     s1.update(s3)
@@ -387,7 +390,8 @@ def gen(rng, tier):
     # id lists with 2^20 - 1 elements: last, because the harness process forks slowly once it has grown
     big = ["AF " + _s2codes(s0) for s0 in AF_BIG + (AF_BIG_THOROUGH if tier != "quick" else [])]
     s1["af_max_num_elems_boundary"] = len(big)
-    return c1 + c2 + c3 + c4 + big, s1
+    # cases that make the harness fork (ENV, long AF strings) first: fork is cheap while the process is small
+    return c4 + c3a + c1 + c2 + c3b + big, s1
 
 
 def classify(case, impl, model):
